@@ -8,9 +8,11 @@ identifiers that are C++ keywords or look like generated suffixes (x_agg, x_ptr)
 with USE FROM / REFERENCE FROM (whole schema, named items, AS renames) in either order, file names shorter / longer
 than the schema name, file names with several dots.
 
-Mask (tied to an open C17 finding and exercised by a fixed probe in probes()):
-  * multi-schema files always get a file name longer than their schema names (the scanner names the directory after
-    the shortest of file name / schema name, so a short file name gives every schema of the file the SAME directory).
+Mask (historic: tied to a C17 finding that is fixed by now; kept so that the corpus - shared with C12 - stays the same):
+  * multi-schema files of corpus() always get a file name longer than their schema names (the scanner named the
+    directory after the shortest of file name / schema name, so a short file name gave every schema of the file the
+    SAME directory).  The region behind the mask - every relation of file name to schema names, 1/2/3 schemas, both
+    dictionary orders - is covered systematically by vf/c17_multi.py (fixed matrix + random files per seed).
 """
 import random
 
